@@ -291,6 +291,11 @@ def object_cases(ctx):
     for lt in (0, 1, 2):
         for sus in (False, True):
             add("sample-loop", [dict(base, fields={"loop_type": lt, "loop_sustain": sus})])
+    # k = 2: every field value on a sample whose PCM is EMPTY (zero-length data chunk) and on a one-byte sample
+    for f, vals in fields.items():
+        for v in vals:
+            for dn in ("empty", "one"):
+                add("sample-field-with-" + dn + "-data:" + f, [{"k": "sample", "i": 5, "data": dn, "format": 2, "fields": {f: v}}])
     for en in ENVS:
         lo, hi = env_range(en)
         ymin, ymax = lo, lo + 0xFFFF          # what the 16-bit stored field can hold
